@@ -13,6 +13,7 @@ A *violation* is (key, what, witness):  key is the locus (stable, deterministic)
 witness is a small JSON value from which `replay` re-derives the failure.
 """
 import os
+import re
 import sys
 import json
 import time
@@ -247,6 +248,9 @@ def jsonable(o):
         return repr(o)
 
 
+WATCHDOG_KEY = re.compile(r"timeout|hang|runaway|did-not-finish")
+
+
 def finish(mod, ctx, t0):
     known = load_known()
     new, listed = [], []
@@ -254,6 +258,18 @@ def finish(mod, ctx, t0):
         if (ctx.pid, key) in known:
             listed.append((key, known[(ctx.pid, key)]))
         else:
+            # A verdict that rests on a watchdog (CPU-time budget of one item) must reproduce before it is believed: the witness is replayed
+            # once here, in this process, with a fresh budget.  Everything else about a violation is deterministic and is not re-run.
+            if WATCHDOG_KEY.search(key) and hasattr(mod, "replay"):
+                try:
+                    again, _ = mod.replay(jsonable(witness))
+                except BaseException as ex:  # noqa  (a replay that cannot run leaves the verdict as it is)
+                    again = True
+                    ctx.note("watchdog_replay_error", repr(ex)[:200])
+                if not again:
+                    ctx.count("watchdog_expiries_not_reproduced")
+                    ctx.collect("watchdog_expiries_not_reproduced_keys", key)
+                    continue
             new.append((key, what, witness))
     cov = {
         "evaluations": ctx.evaluations,
